@@ -53,6 +53,11 @@ def units(tier, seed):
                 if weights in ([1, 1, 2], [2, 1, 1]) and size in (4, 5):
                     us.append({"kind": "gp", "weights": weights, "size": size, "minimize": minimize, "order": "elitism-last",
                                "max_dev": 2 if tier == "quick" else 3, "max_execs": 600 if tier == "quick" else 8000})
+    # the elite share follows the weights in force, also when they change on a live step object
+    for mode in ("reassign", "setitem", "randomize"):
+        for minimize in (False, True):
+            us.append({"kind": "reweighted", "mode": mode, "minimize": minimize, "max_dev": 2 if tier == "quick" else 3,
+                       "max_execs": 300 if tier == "quick" else 5000})
     return us
 
 
@@ -315,7 +320,71 @@ def run_simplegp(unit) -> UnitResult:
     return r
 
 
+REWEIGHTS = [[0, 1, 1, 0], [2, 1, 1, 0], [1, 0, 0, 3], [5, 5, 90, 0], [3, 0, 1, 0], [0, 0, 1, 1]]
+
+
+def run_reweighted(unit) -> UnitResult:
+    import math
+
+    from geneticengine.algorithms.gp.parameterless import RandomizeParallelStep
+
+    r = UnitResult()
+    mode, minimize = unit["mode"], unit["minimize"]
+    pairs = list(itertools.permutations(REWEIGHTS, 2)) if mode != "randomize" else [(REWEIGHTS[0], None), (REWEIGHTS[1], None)]
+    for w1, w2 in pairs:
+        for n in (3, 4, 6, 20):
+            def run(src, w1=w1, w2=w2, n=n):
+                rep = StubRepresentation(2)
+                problem = SingleObjectiveProblem(lambda p: float(p.v), minimize=minimize)
+                subs = [ElitismStep(), NoveltyStep(), GenericMutationStep(1), SequenceStep(TournamentSelection(2), GenericCrossoverStep(1))]
+                step = (RandomizeParallelStep if mode == "randomize" else ParallelStep)(subs, list(w1))
+                log = []
+                for gen in (1, 2, 3):
+                    ev = SequentialEvaluator()
+                    inds = [Individual(rep._new((i + gen) % 3), rep) for i in range(n)]
+                    weights = [float(x) for x in step.weights]
+                    out = list(step.apply(problem, ev, rep, src, inds, n, gen))
+                    ev.evaluate(problem, out)
+                    survivors = [o.genotype.v for o in out if any(o is i for i in inds)]
+                    log.append((weights, [i.genotype.v for i in inds], survivors, len(out)))
+                    if gen == 1 and mode == "reassign":
+                        step.weights = list(w2)
+                    elif gen == 1 and mode == "setitem":
+                        for i, x in enumerate(w2):
+                            step.weights[i] = x
+                return log
+
+            st = ExploreStats()
+            for ex in explore(run, max_dev=unit["max_dev"], max_execs=unit["max_execs"], horizon=6000, stats=st):
+                r.executions += 1
+                if ex.exc is not None or ex.capped:
+                    r.count("run_raised_or_capped(other properties' business)")
+                    continue
+                w = {"unit": unit, "w1": w1, "w2": w2, "n": n, "choices": list(ex.choices)}
+                r.count("reweighted_runs")
+                for gen, (weights, fits, survivors, size) in enumerate(ex.result, start=1):
+                    share = weights[0] * n / sum(weights)
+                    g = max(0, math.ceil(share - 0.5 - 1e-9))  # slots the rounded share guarantees to elitism
+                    if g == 0:
+                        continue
+                    r.nontrivial += 1
+                    r.count("generations_with_an_elite_slot")
+                    top = sorted(fits, reverse=not minimize)[:g]
+                    kept = sorted(survivors, reverse=not minimize)[:g]
+                    if kept != top:
+                        r.add_violation(Violation(PROP, "ParallelStep.apply", "elite-share-ignores-current-weights", {"mode": mode, "generation": gen}, w,
+                                                  f"weights in force {weights} on {n} individuals (generation {gen} of one step object, mode {mode}): elitism's share "
+                                                  f"guarantees {g} slot(s), input fitness {fits}, surviving input individuals {survivors}"))
+                        break
+            r.capped += st.capped_paths
+    r.states = len(pairs)
+    r.samples.append({"reweighted": mode, "minimize": minimize})
+    return r
+
+
 def run_unit(unit) -> UnitResult:
+    if unit["kind"] == "reweighted":
+        return run_reweighted(unit)
     return {"topk": run_topk, "gp": run_gp, "topk-multi": run_topk_multi, "simplegp": run_simplegp}[unit["kind"]](unit)
 
 
